@@ -7,6 +7,9 @@ switched on and off, state telegrams arrive spontaneously, virtual time passes -
 history generated as data:
 
     ["sleep", seconds] ["connect"] ["disconnect"] ["connecting"] ["add", d] ["remove", d] ["state", d, 0|1]
+    ["traffic", n, "delay"|"noconfirm", x]   n outgoing GroupValueWrite telegrams to unrelated addresses whose
+                                             sends take x seconds on the interface / get no confirmation (3 s timeout),
+                                             i.e. the outgoing queue is not empty while trackers start or are stopped
 
 A simulated bus answers every GroupValueRead seen by the stub according to a generated plan
 (response after a latency, no response, response after the 2 s read timeout). The oracle is a
@@ -31,7 +34,7 @@ LEVEL = "exploration"
 TECHNIQUE = "property-based testing (Hypothesis) of generated connect/disconnect/state/registration histories on a real StateUpdater in virtual time with a simulated bus; validity predicates over the GroupValueRead log"
 RULE = (
     "case = (1-5 Switch devices with tracker options from {init, expire 1|2, every 1|2|3, expire, every, True, 2, 1.5, no state address, sync_state False}, "
-    "up to 16 ops connect | disconnect | connecting | add | remove | state telegram separated by virtual sleeps of 0.3 s .. 62 min, bus answer plan per read: response latency / none / late); "
+    "up to 16 ops connect | disconnect | connecting | add | remove | state telegram | 1-3 slow/unconfirmed outgoing telegrams (also as 'jam' sequences: traffic, (re)connect or add, then disconnect / remove / state telegram while the queue is still blocked) separated by virtual sleeps of 0.3 s .. 62 min, bus answer plan per read: response latency / none / late); "
     "non-trivial = at least one session (value registered while connected) of an expire/every tracker that lasts longer than its interval, or a reconnection, or a state telegram inside a session; distinct by case"
 )
 LEVEL_TEXT = (
@@ -48,11 +51,14 @@ ASSUMPTIONS = [
     "every: consecutive reads of a session are >= interval and <= interval + 2 s + initial-read slack apart (the period restarts when a read finishes, a read takes at most the 2 s timeout plus queueing)",
     "state telegram = GroupValueWrite/GroupValueResponse with a 1-bit payload to the state address, delivered through the cEMI receive path; answers of the simulated bus are dropped while disconnected",
     "reads in progress = calls of ValueReader.read between entry and exit (recording wrapper)",
+    "other outgoing traffic ('traffic' op: sends that take 0.5-5 s on the interface or wait 3 s for a missing confirmation) legitimately delays reads: every deadline above is extended by the time the outgoing queue held such a telegram between the anchor and the deadline",
     "every device has its own state address; rate limit 0",
 ]
 
 EPS = 1e-6
 READ_TIMEOUT = 2.0
+CONFIRM_TIMEOUT = 3.0  # xknx.cemi.cemi_handler.REQUEST_TO_CONFIRMATION_TIMEOUT
+TRAFFIC_BASE = 0x2000  # 4/0/x: unrelated outgoing traffic
 # option -> (type, minutes) written from the documentation of sync_state
 OPTIONS = {
     "init": ("init", 60),
@@ -103,7 +109,7 @@ def execute(case):
     from xknx.core import XknxConnectionState
 
     devs = case["devs"]
-    res: dict = {"reads": [], "updates": [], "ops": [], "rw": [], "other_reads": [], "errors": []}
+    res: dict = {"reads": [], "updates": [], "ops": [], "rw": [], "other_reads": [], "errors": [], "traffic": []}
     saved_fmt = GroupAddress.address_format
     state = {"loop": None, "done": False}
     orig_read = ValueReader.read
@@ -162,6 +168,20 @@ def execute(case):
                 loop.call_later(float(plan[1]), deliver, by_addr[raw], idx & 1, True)
 
         h.stub.on_sent = on_sent
+        pending_plans: list = []  # FIFO of [put_index, kind, x] for traffic telegrams not yet on the interface
+
+        def behaviour(idx, cemi):
+            raw = getattr(getattr(cemi.data, "dst_addr", None), "raw", None)
+            if raw is None or not (TRAFFIC_BASE <= raw < TRAFFIC_BASE + 0x100) or not pending_plans:
+                return {}
+            k, tkind, x = pending_plans.pop(0)
+            if tkind == "noconfirm":
+                res["traffic"][k][1] = loop.time() + CONFIRM_TIMEOUT
+                return {"confirm": False}
+            res["traffic"][k][1] = loop.time() + float(x)
+            return {"delay": float(x)}
+
+        h.stub.behaviour = behaviour
         for d, spec in enumerate(devs):
             if spec.get("present"):
                 xknx.devices.async_add(objs[d])
@@ -193,6 +213,12 @@ def execute(case):
                     xknx.devices.async_remove(objs[d])
             elif kind == "state":
                 deliver(op[1] % len(devs), int(op[2]) & 1, False)
+            elif kind == "traffic":
+                for j in range(int(op[1])):
+                    k = len(res["traffic"])
+                    res["traffic"].append([loop.time(), None])  # [queued at, leaves the outgoing queue at (None = not yet)]
+                    pending_plans.append([k, op[2], op[3]])
+                    xknx.telegrams.put_nowait(Telegram(destination_address=GroupAddress(TRAFFIC_BASE + (k & 0xFF)), payload=GroupValueWrite(DPTBinary(j & 1))))
             await asyncio.sleep(0)
         res["horizon"] = loop.time()
         state["done"] = True
@@ -266,6 +292,25 @@ def judge(ctx, case, res) -> bool:
         conn_spans.append((conn_open, horizon))
     s_init = slack_init(n)
     s_live = READ_TIMEOUT + s_init
+    # spans in which the outgoing queue was legitimately not empty (reads wait for it to drain)
+    busy = sorted((a, (b if b is not None else float("inf"))) for a, b in res.get("traffic", []))
+
+    def deadline(a: float, allowance: float) -> float:
+        """a + allowance, extended by the time the outgoing queue was blocked by other traffic in between."""
+        d = a + allowance
+        for _ in range(len(busy) + 1):
+            blocked = 0.0
+            cur = a
+            for b0, b1 in busy:  # measure of the union of busy spans within [a, d]
+                lo, hi = max(b0, cur), min(b1, d)
+                if hi > lo:
+                    blocked += hi - lo
+                    cur = hi
+            d2 = a + allowance + blocked
+            if d2 <= d + EPS:
+                break
+            d = d2
+        return d
     for e in res["errors"]:
         ctx.fail(f"C35:{e}", case, "xknx.stop() did not return within 60 virtual seconds")
     for e in res["escaped"]:
@@ -306,9 +351,10 @@ def judge(ctx, case, res) -> bool:
                 nontrivial = True
             span = f"session [{s:.3f}, {e:.3f}] of device {d} ({opt}); reads {[round(x, 3) for x in rs]}; state telegrams {[round(x, 3) for x in us]}"
             # ---- exactly one initial read
-            preempted = typ == "expire" and any(u <= s + s_init + EPS for u in us)  # fresh state arrived while the initial read was queued
-            if e - s > s_init + EPS and (not rs or rs[0] > s + s_init + EPS) and not preempted:
-                ctx.fail(f"C35:no-initial-read:{typ}", case, f"no read within {s_init} s of the session start; {span}")
+            d_init = deadline(s, s_init)
+            preempted = typ == "expire" and any(u <= d_init + EPS for u in us)  # fresh state arrived while the initial read was queued
+            if e > d_init + EPS and (not rs or rs[0] > d_init + EPS) and not preempted:
+                ctx.fail(f"C35:no-initial-read:{typ}", case, f"no read until {d_init:.3f} (session start + {s_init} s slack + time the outgoing queue was blocked); {span}; outgoing queue blocked {[(round(a, 3), round(b, 3)) for a, b in busy]}")
                 continue
             if not rs:
                 continue
@@ -326,8 +372,8 @@ def judge(ctx, case, res) -> bool:
                         break
                 ev = sorted(rs + us)
                 for a, b in zip(ev, ev[1:] + [e]):
-                    if b - a > interval + s_live + EPS:
-                        ctx.fail("C35:expire-read-overdue", case, f"nothing between {a:.3f} and {b:.3f} (> interval {interval} + slack {s_live}); {span}")
+                    if b > deadline(a, interval + s_live) + EPS:
+                        ctx.fail("C35:expire-read-overdue", case, f"nothing between {a:.3f} and {b:.3f} (> interval {interval} + slack {s_live} + blocked-queue time); {span}")
                         break
             else:  # every
                 bad = False
@@ -336,11 +382,11 @@ def judge(ctx, case, res) -> bool:
                         ctx.fail("C35:every-read-too-early", case, f"reads at {a:.3f} and {b:.3f} are {b - a:.3f} s apart (interval {interval}); {span}")
                         bad = True
                         break
-                    if b - a > interval + s_live + EPS:
-                        ctx.fail("C35:every-read-overdue", case, f"reads at {a:.3f} and {b:.3f} are {b - a:.3f} s apart (interval {interval} + slack {s_live}); {span}")
+                    if b > deadline(a, interval + s_live) + EPS:
+                        ctx.fail("C35:every-read-overdue", case, f"reads at {a:.3f} and {b:.3f} are {b - a:.3f} s apart (interval {interval} + slack {s_live} + blocked-queue time); {span}")
                         bad = True
                         break
-                if not bad and e - rs[-1] > interval + s_live + EPS:
+                if not bad and e > deadline(rs[-1], interval + s_live) + EPS:
                     ctx.fail("C35:every-read-overdue", case, f"no read between {rs[-1]:.3f} and the session end {e:.3f}; {span}")
     # ---- at most two reads in progress
     active: dict[int, tuple] = {}
@@ -389,7 +435,7 @@ def cases(draw):
     if draw(_I(0, 3)) > 0:
         ops.append(["connect"])
     for _ in range(draw(_I(1, 16))):
-        k = draw(_I(0, 11))
+        k = draw(_I(0, 14))
         # bias towards long sleeps so that intervals elapse
         ops.append(["sleep", _pick(draw, SLEEPS)])
         if k <= 1:
@@ -410,6 +456,19 @@ def cases(draw):
             d = draw(_I(0, n - 1))
             first, second = [(["disconnect"], ["connect"]), (["remove", d], ["add", d]), (["connect"], ["remove", d])][j]
             ops += [first, ["sleep", _pick(draw, [0.3, 1.0, 2.5])], second]
+        elif k in (10, 11):
+            # jam: trackers start while the outgoing queue is blocked and are stopped before it drains
+            d = draw(_I(0, n - 1))
+            traffic = ["traffic", draw(_I(1, 3)), "noconfirm", 0] if draw(_I(0, 2)) == 0 else ["traffic", draw(_I(1, 3)), "delay", _pick(draw, [0.5, 1.5, 5.0])]
+            starter = ["add", d] if draw(_I(0, 3)) == 0 else ["connect"]
+            stopper = _pick(draw, [["disconnect"], ["disconnect"], ["remove", d], ["state", d, 1], ["connecting"]])
+            if starter == ["connect"]:
+                ops += [["disconnect"], ["sleep", 0.3]]
+            ops += [traffic, ["sleep", 0.3], starter, ["sleep", _pick(draw, [0.3, 1.0])], stopper]
+            if draw(_I(0, 1)):
+                ops += [["sleep", _pick(draw, [10.0, 30.0])], ["connect"]]
+        elif k == 12:
+            ops.append(["traffic", draw(_I(1, 3)), _pick(draw, ["delay", "delay", "noconfirm"]), _pick(draw, [0.5, 1.5, 5.0])])
         # else: only time passes
     ops.append(["sleep", _pick(draw, SLEEPS)])
     answers = []
@@ -447,6 +506,12 @@ FIXED = [
     {
         "devs": [{"opt": "expire 2", "present": True}, {"opt": "every 3", "present": True}, {"opt": "init", "present": True}],
         "ops": [["connect"], ["sleep", 400.0], ["state", 0, 1], ["sleep", 400.0], ["disconnect"], ["sleep", 30.0], ["connect"], ["sleep", 400.0]],
+        "answers": [],
+    },
+    # trackers start while a slow outgoing telegram blocks the queue and are stopped before it drains; reconnect later
+    {
+        "devs": [{"opt": "expire 1", "present": True}, {"opt": "every 1", "present": True}, {"opt": "init", "present": True}],
+        "ops": [["traffic", 1, "delay", 5.0], ["sleep", 0.3], ["connect"], ["sleep", 1.0], ["disconnect"], ["sleep", 10.0], ["connect"], ["sleep", 185.0]],
         "answers": [],
     },
     # five values, nobody answers: two reads at a time
